@@ -28,7 +28,10 @@ func newPacer(getBandwidth func() Bandwidth) *pacer {
 			// RTT variations then won't result in under-utilization of the congestion window.
 			// Ultimately, this will result in sending packets as acknowledgments are received rather than when timers fire,
 			// provided the congestion window is fully utilized and acknowledgments arrive at regular intervals.
-			return bw * 5 / 4
+			// Never report 0 (the bandwidth estimate is 0 if the smoothed RTT, in seconds, exceeds the
+			// congestion window, in bytes): TimeUntilSend divides by this value, and a budget that
+			// never grows would leave the connection pacing-limited forever.
+			return max(bw*5/4, 1)
 		},
 	}
 	p.budgetAtLastSent = p.maxBurstSize()
